@@ -2,6 +2,7 @@
 //! Checker over the recorded result of each parse (positions, repair presence, value presence,
 //! return), with the production wall-clock budget (faithful) and with logical step budgets.
 
+use crate::ag::*;
 use crate::frame::*;
 use crate::lrx::*;
 use crate::rec::*;
@@ -20,7 +21,7 @@ impl Check for C07 {
         tier.sz(3200, 40000)
     }
     fn rule(&self) -> &'static str {
-        "per case one generated grammar without derivation cycle (and whose table has no endless reduction loop), a cost table and 5 inputs: long inputs with up to 10 independent errors (up to 40/60 lexemes), pure garbage, deeply nested prefixes cut off at end of input; parsed (a) with the production 500 ms wall-clock budget and (b) with logical step budgets {50, 500, 5000} so that 'budget ran out mid-parse' paths are driven deterministically; checked: the parse returns; error lexemes strictly increase; consecutive errors are >= 3 real lexemes apart (measured from where parsing resumed after the repair) unless the later one is at/after the end of input; count <= n+1; every error but the last has a repair; value <=> every error has a repair; (value, no errors) => input is a sentence (Earley) with leaves = input. Non-trivial = parse with >= 2 errors; distinct by (grammar, input, budget)."
+        "per case one generated grammar without derivation cycle (and whose table has no endless reduction loop), a cost table and 5 inputs: long inputs with up to 10 independent errors (up to 40/60 lexemes), pure garbage, deeply nested prefixes cut off at end of input; parsed (a) with the production 500 ms wall-clock budget and (b) with logical step budgets {50, 500, 5000} so that 'budget ran out mid-parse' paths are driven deterministically, (c) with real wall-clock budgets of 0 and 2 ms (the parser's own deadline arithmetic), (d) every fourth case: one input under every step budget 0..40 (the budget expires inside each phase of a recovery); every 16th case instead: a sentence followed by k junk lexemes whose only repair is k deletions costing 65535-2d .. 65535+3d in total (the u16 cost ceiling); checked: the parse returns; error lexemes strictly increase; consecutive errors are >= 3 real lexemes apart (measured from where parsing resumed after the repair) unless the later one is at/after the end of input; count <= n+1; every error but the last has a repair; value <=> every error has a repair; (value, no errors) => input is a sentence (Earley) with leaves = input. Non-trivial = parse with >= 2 errors; distinct by (grammar, input, budget)."
     }
     fn assumptions(&self) -> Vec<&'static str> {
         vec![
@@ -32,7 +33,7 @@ impl Check for C07 {
         tier.sz(1200, 15000)
     }
     fn required_counters(&self, _t: Tier) -> Vec<&'static str> {
-        vec!["parses", "parses_with_2plus_errors", "parses_where_budget_ran_out", "parses_production_budget", "errors_at_eof", "accepted_unchanged"]
+        vec!["parses", "parses_with_2plus_errors", "parses_where_budget_ran_out", "parses_production_budget", "errors_at_eof", "accepted_unchanged", "budget_sweeps", "parses_at_the_cost_ceiling", "ceiling_inputs_repaired", "ceiling_inputs_given_up"]
     }
     fn case_cap_s(&self, _t: Tier) -> u64 {
         120
@@ -42,6 +43,9 @@ impl Check for C07 {
     }
     fn run_case(&self, seed: u64, idx: u64, tier: Tier) -> CaseOut {
         let mut out = CaseOut::new();
+        if idx % 16 == 5 {
+            return cost_ceiling_case(seed, idx);
+        }
         let mut rng = Rng::derive(seed, "C07", idx, 0);
         let Some(rc) = gen_rec_case(&mut rng, false) else {
             out.count("no_suitable_grammar", 1);
@@ -95,13 +99,22 @@ impl Check for C07 {
             let toks: Vec<TIdx<u32>> = inp.iter().map(|t| b.tok[*t]).collect();
             let si = syn_input(&toks, &mut rng, true);
             let n = toks.len();
-            let (budget, bname) = match (idx + k) % 5 {
-                0 => (Budget::Production, "production-500ms"),
-                1 => (Budget::Steps(50), "steps-50"),
-                2 => (Budget::Steps(500), "steps-500"),
-                3 => (Budget::WallMs(if k % 2 == 0 { 0 } else { 2 }), "wall-clock-0-or-2ms"),
-                _ => (Budget::Steps(5000), "steps-5000"),
+            let budgets: Vec<(Budget, String)> = if k == 0 && idx % 4 == 0 {
+                // fine sweep: every step budget from 0 to 40, so that the budget also runs out in the middle
+                // of each phase of a recovery (search, flattening, ranking), not only between phases
+                out.count("budget_sweeps", 1);
+                (0..=40u64).map(|n| (Budget::Steps(n), format!("steps-{n}"))).collect()
+            } else {
+                vec![match (idx + k) % 5 {
+                    0 => (Budget::Production, "production-500ms".to_string()),
+                    1 => (Budget::Steps(50), "steps-50".to_string()),
+                    2 => (Budget::Steps(500), "steps-500".to_string()),
+                    3 => (Budget::WallMs(if k % 2 == 0 { 0 } else { 2 }), "wall-clock-0-or-2ms".to_string()),
+                    _ => (Budget::Steps(5000), "steps-5000".to_string()),
+                }]
             };
+            for (budget, bname) in budgets {
+            let bname = bname.as_str();
             out.evals += 1;
             out.count("parses", 1);
             let detail = |x: String| json!({"grammar": b.src, "input": inp.iter().map(|t| rc.ag.tokens[*t].name.clone()).collect::<Vec<_>>(), "budget": bname, "token_costs": rc.ag.tokens.iter().zip(costs.iter()).map(|(t, c)| json!([t.name, c])).collect::<Vec<_>>(), "obs": x});
@@ -183,10 +196,93 @@ impl Check for C07 {
                     }
                 }
             }
-            if k == 0 && idx % 41 == 0 {
+            if k == 0 && idx % 41 == 0 && out.sample.is_none() {
                 out.sample = Some(json!({"grammar": b.src, "family": rc.ag.family, "budget": bname, "input_len": n, "errors_at": errs.iter().map(|e| e.at).collect::<Vec<_>>(), "repairs_per_error": errs.iter().map(|e| e.repairs.len()).collect::<Vec<_>>(), "value": rec.tree.is_some(), "budget_ran_out": rec.timeouts > 0}));
+            }
             }
         }
         out
     }
+}
+
+/// Repairs whose cost lands on and just past the u16 cost ceiling: a sentence followed by k junk lexemes
+/// that nothing but k deletions at cost 255 can repair (k x 255 = 65535 for k = 257).
+fn cost_ceiling_case(seed: u64, idx: u64) -> CaseOut {
+    let mut out = CaseOut::new();
+    let mut rng = Rng::derive(seed, "C07-ceiling", idx, 0);
+    let mut g = AG::new(AKind::OriginalGeneric, "cost-ceiling");
+    let s_ = g.rule("S");
+    let a = g.tok("a");
+    let bt = g.tok("b");
+    let junk = g.tok("g");
+    let sentence: Vec<usize> = match rng.below(3) {
+        0 => {
+            g.add_prod(s_, vec![ASym::T(a)]);
+            vec![a]
+        }
+        1 => {
+            g.add_prod(s_, vec![ASym::T(a), ASym::T(bt)]);
+            vec![a, bt]
+        }
+        _ => {
+            g.add_prod(s_, vec![ASym::T(a), ASym::R(s_)]);
+            g.add_prod(s_, vec![ASym::T(bt)]);
+            vec![a, a, bt]
+        }
+    };
+    // the junk token appears in no production: declare it
+    let b = match build_grm_src(&g, format!("%token b g\n{}", g.render())) {
+        Ok(b) => b,
+        Err(e) => {
+            out.violate("grammar-build-failed", &["harness"], e, json!(null));
+            return out;
+        }
+    };
+    let Ok(Ok((_, st))) = guarded(|| b.table()) else { return out };
+    out.count("cost_ceiling_cases", 1);
+    let junk_cost = *rng.pick(&[255u8, 255, 255, 85, 51, 15]);
+    let cost = |t: TIdx<u32>| -> u8 { if t == b.tok[junk] { junk_cost } else { 255 } };
+    let exact = 65535usize / junk_cost as usize;
+    for k in [exact - 2, exact - 1, exact, exact + 1, exact + 2, exact + 3] {
+        if k > 4500 {
+            continue;
+        }
+        let mut inp = sentence.clone();
+        inp.extend(std::iter::repeat(junk).take(k));
+        let toks: Vec<TIdx<u32>> = inp.iter().map(|t| b.tok[*t]).collect();
+        let si = syn_input(&toks, &mut rng, true);
+        out.evals += 1;
+        out.count("parses", 1);
+        out.count("parses_at_the_cost_ceiling", 1);
+        let detail = || json!({"grammar": b.src, "input": format!("{:?} followed by {k} x 'g'", sentence.iter().map(|t| g.tokens[*t].name.clone()).collect::<Vec<_>>()), "junk_cost": junk_cost});
+        trace(|| format!("cost ceiling: {k} junk lexemes of cost {junk_cost}"));
+        let rec = match record_parse(&b, &st, &si, &cost, Budget::Steps(2_000_000)) {
+            Ok(r) => r,
+            Err(p) => {
+                out.violate("panic", &["parse", "cost-ceiling"], format!("parse with recovery panicked instead of returning: {p}"), detail());
+                continue;
+            }
+        };
+        for m in &rec.malformed {
+            out.violate("malformed-result", &[], m.clone(), detail());
+        }
+        let errs = &rec.errors;
+        if errs.is_empty() {
+            out.violate("non-sentence-accepted-silently", &["cost-ceiling"], "no error reported for an input with junk lexemes".into(), detail());
+        }
+        let all_repaired = errs.iter().all(|e| !e.repairs.is_empty());
+        if rec.tree.is_some() != all_repaired {
+            out.violate("value-vs-repairs", &["cost-ceiling"], format!("value returned = {}, every error has a repair = {}", rec.tree.is_some(), all_repaired), detail());
+        }
+        if errs.len() > 1 && errs.windows(2).any(|w| w[1].at <= w[0].at) {
+            out.violate("errors-not-increasing", &["cost-ceiling"], format!("errors at {:?}", errs.iter().map(|e| e.at).collect::<Vec<_>>()), detail());
+        }
+        if all_repaired && !errs.is_empty() {
+            out.count("ceiling_inputs_repaired", 1);
+        } else {
+            out.count("ceiling_inputs_given_up", 1);
+        }
+        out.nontrivial(hash_str(&format!("ceiling{k}{junk_cost}{:?}", sentence)));
+    }
+    out
 }
